@@ -55,9 +55,10 @@ LEVEL_NOTE = ('Trusted: Coq kernel; the hand-written model (shape-pinned, valida
               'registrations with equal slot and phash, duplicate-free resolution orders, no accept=).')
 
 ISA_NAMES = ['BaseException', 'Exception', 'HTTPNotFound', 'PredicateMismatch', 'HTTPForbidden']
-EXC_CLASSES = ['E0', 'E1', 'E2', 'F0', 'D', 'K', 'NF', 'FB', 'BR', 'PM', 'MyNF', 'HE', 'WX', 'BE']
-CTX_NAMES = ['Exception', 'E0', 'E1', 'E2', 'F0', 'D', 'K', 'NF', 'FB', 'BR', 'PM', 'MyNF', 'HE', 'IER', 'WEB',
-             'IM1', 'IM2', 'IPlain', 'BE', 'Root']
+EXC_CLASSES = ['E0', 'E1', 'E2', 'F0', 'D', 'K', 'NF', 'FB', 'BR', 'PM', 'MyNF', 'HE', 'WX', 'BE', 'G1', 'G2', 'DD']
+EXC_CTX_NAMES = ['Exception', 'E0', 'E1', 'E2', 'F0', 'D', 'K', 'NF', 'FB', 'BR', 'PM', 'MyNF', 'HE', 'IER', 'WEB',
+                 'IM1', 'IM2', 'G1', 'G2', 'DD']          # contexts that are exception types
+CTX_NAMES = EXC_CTX_NAMES + ['IPlain', 'BE', 'Root']
 # contexts that can apply to an instance of the class (generation-time hint only; the oracle is zope's)
 ANCESTORS = {
     'E0': ['E0', 'Exception'], 'E1': ['E1', 'E0', 'Exception'], 'E2': ['E2', 'E1', 'E0', 'Exception'],
@@ -65,13 +66,14 @@ ANCESTORS = {
     'NF': ['NF', 'IER', 'Exception'], 'FB': ['FB', 'IER', 'Exception'], 'BR': ['BR', 'IER', 'Exception'],
     'PM': ['PM', 'NF', 'IER', 'Exception'], 'MyNF': ['MyNF', 'NF', 'IER', 'Exception'],
     'HE': ['HE', 'E0', 'BR', 'IER', 'Exception'], 'WX': ['WEB', 'Exception'], 'BE': ['BE'],
+    'G1': ['G1', 'E0', 'Exception'], 'G2': ['G2', 'E0', 'Exception'], 'DD': ['DD', 'G1', 'G2', 'E0', 'Exception'],
 }
 MARKS = ['IM1', 'IM2']
 ROUTES = ['r1', 'r2']
 VNAMES = ['', 'v', 'zz']
 PARAM_KEYS = ['k', 'j']
 DIRS = ['view', 'exc', 'nf', 'fb']
-FRESH = {1000: 'HTTPNotFound', 1001: 'PredicateMismatch', 1002: 'HTTPForbidden',
+FRESH = {1000: 'HTTPNotFound', 1001: 'PredicateMismatch', 1002: 'HTTPForbidden', 1032: 'ValueError',
          1010: 'HTTPNotFound', 1011: 'PredicateMismatch', 1012: 'ValueError', 1013: 'HTTPForbidden',
          1020: 'HTTPNotFound', 1021: 'PredicateMismatch', 1022: 'ValueError', 1023: 'HTTPForbidden'}
 
@@ -119,13 +121,14 @@ def gen_body(rng, excs, exc_view):
 
 def _exc_decl(v):
     """the declaration can register an exception view"""
-    return v['dir'] != 'view' or v['ctx'] in CTX_NAMES[:17]
+    return v['dir'] != 'view' or v['ctx'] in EXC_CTX_NAMES
 
 
 def gen_case(rng):
     routes = [{'name': n, 'ugv': rng.random() < 0.5} for n in ROUTES[:rng.choice([0, 1, 1, 2])]]
     rnames = [r['name'] for r in routes]
     fam = rng.choice([['E2', 'E1', 'D', 'E0', 'F0'], ['NF', 'MyNF', 'PM', 'FB', 'BR'], ['HE', 'E0', 'BR', 'WX', 'K'],
+                      ['DD', 'G1', 'G2', 'E0', 'D'],
                       EXC_CLASSES])
     excs = []
     for _ in range(rng.choice([3, 4, 5])):
@@ -142,6 +145,8 @@ def gen_case(rng):
                           'route': rng.choice([None] + rnames) if rng.random() < 0.4 else None,
                           'preds': gen_preds(rng, rng.choice([0, 0, 1])), 'perm': rng.random() < 0.25, 'phase': 0,
                           'tag': tag, 'body': gen_body(rng, excs, False)})
+            if rng.random() < 0.06:       # default_exceptionresponse_view as an ordinary view
+                views[-1]['body'] = {'touch': rng.random() < 0.3, 'act': ['ctx']}
             tag += 1
     # exception views
     pool = []
@@ -157,7 +162,8 @@ def gen_case(rng):
         v = {'dir': d, 'ctx': None if d in ('nf', 'fb') else ctx, 'xonly': d == 'view' and rng.random() < 0.4,
              'name': 'v' if (d == 'view' and rng.random() < 0.06) else '',
              'route': rng.choice(rnames) if (rnames and rng.random() < 0.35) else None,
-             'preds': gen_preds(rng), 'perm': False, 'phase': 0, 'tag': tag, 'body': gen_body(rng, excs, True)}
+             'preds': gen_preds(rng), 'perm': d == 'view' and rng.random() < 0.3, 'phase': 0, 'tag': tag,
+             'body': gen_body(rng, excs, True)}
         if not _exc_decl(v):
             v['body'] = gen_body(rng, excs, False)
         tag += 1
@@ -179,7 +185,7 @@ def gen_case(rng):
     for _ in range(rng.choice([6, 8, 10])):
         r = rng.random()
         under = ['pass'] if r < 0.55 else ['raise', rng.randrange(nexc)] if r < 0.7 else \
-            ['catch', rng.random() < 0.4, rng.randrange(nexc) if rng.random() < 0.6 else None]
+            ['catch', rng.random() < 0.4, rng.random() < 0.7, rng.randrange(nexc) if rng.random() < 0.6 else None]
         reqs.append({'phase': 0, 'route': rng.choice(rnames) if (rnames and rng.random() < 0.4) else None,
                      'vname': rng.choice(['', '', 'v', 'v', 'zz']), 'method': rng.choice(['GET', 'GET', 'POST']),
                      'xhr': rng.random() < 0.5,
@@ -237,8 +243,6 @@ def valid(case):
                 return False
             if a[0] == 'raise' and case['excs'][a[1]]['cls'] == 'PM':
                 return False
-            if a == ['ctx'] and not _exc_decl(v):       # default_exceptionresponse_view as an ordinary view: not modelled
-                return False
             if not isinstance(v['body']['touch'], bool):
                 return False
             for n, val in v['preds'].items():
@@ -270,7 +274,8 @@ def valid(case):
                 return False
             u = r['under']
             if not (u == ['pass'] or (len(u) == 2 and u[0] == 'raise' and okid(u[1]))
-                    or (len(u) == 3 and u[0] == 'catch' and isinstance(u[1], bool) and (u[2] is None or okid(u[2])))):
+                    or (len(u) == 4 and u[0] == 'catch' and isinstance(u[1], bool) and isinstance(u[2], bool)
+                        and (u[3] is None or okid(u[3])))):
                 return False
         return True
     except Exception:
@@ -308,8 +313,10 @@ def shrinks(case):
                           ('route', None), ('method', 'GET'), ('under', ['pass']), ('phase', 0), ('vname', '')):
             if r[k] != simple:
                 yield putr(dict(r, **{k: simple}))
-        if r['under'][0] == 'catch' and r['under'][2] is not None:
-            yield putr(dict(r, under=['catch', r['under'][1], None]))
+        if r['under'][0] == 'catch' and r['under'][3] is not None:
+            yield putr(dict(r, under=['catch', r['under'][1], r['under'][2], None]))
+        if r['under'][0] == 'catch' and not r['under'][2]:
+            yield putr(dict(r, under=['catch', r['under'][1], True, r['under'][3]]))
     for i, x in enumerate(case['excs']):
         if x['marks']:
             yield dict(case, excs=case['excs'][:i] + [dict(x, marks=[])] + case['excs'][i + 1:])
@@ -373,7 +380,16 @@ def setup(tier):
 
     class BE(BaseException):
         pass
-    classes = {'E0': E0, 'E1': E1, 'E2': E2, 'F0': F0, 'D': D, 'K': K, 'NF': HTTPNotFound, 'FB': HTTPForbidden,
+
+    class G1(E0):
+        pass
+
+    class G2(E0):
+        pass
+
+    class DD(G1, G2):          # diamond: DD -> G1, G2 -> E0
+        pass
+    classes = {'G1': G1, 'G2': G2, 'DD': DD, 'E0': E0, 'E1': E1, 'E2': E2, 'F0': F0, 'D': D, 'K': K, 'NF': HTTPNotFound, 'FB': HTTPForbidden,
                'BR': HTTPBadRequest, 'PM': PredicateMismatch, 'MyNF': MyNF, 'HE': HE, 'WX': webob.exc.HTTPBadRequest,
                'BE': BE, 'Exception': Exception, 'IER': IExceptionResponse, 'WEB': webob.exc.WSGIHTTPException,
                'IM1': IM1, 'IM2': IM2, 'IPlain': IPlain, 'Root': A.Root}
@@ -552,7 +568,7 @@ class World:
         rq = [r['method'], params, [], r['xhr'], [[]] if r['route'] else [], False, req.upath_info, [['', []]], True,
               [], [], sorted(r['truth']), rsro, csro, r['vname']]
         u = r['under']
-        wu = [0] if u[0] == 'pass' else [1, u[1]] if u[0] == 'raise' else [2, u[1], [] if u[2] is None else [u[2]]]
+        wu = [0] if u[0] == 'pass' else [1, u[1]] if u[0] == 'raise' else [2, u[1], u[2], [] if u[3] is None else [u[3]]]
         unr = [self.iid(i) for i in P['IRequest'].combined.__sro__]
         return [r['phase'], rq, comb, unr, r['deny'], [] if r['root_raise'] is None else [r['root_raise']], wu,
                 [] if r['preset'] is None else [r['preset']]]
@@ -663,9 +679,9 @@ def to_wire(case):
 
 
 def from_wire(case, raw):
-    if raw == [['bad']] or not isinstance(raw, list) or any(not (isinstance(p, list) and len(p) == 4) for p in raw):
+    if raw == [['bad']] or not isinstance(raw, list) or any(not (isinstance(p, list) and len(p) == 5) for p in raw):
         return {'model': ['MODEL-BAD', raw], 'spec': None}
-    return {'model': [p[0] for p in raw], 'spec': [[p[1], p[2], sorted(p[3])] for p in raw]}
+    return {'model': [p[0] for p in raw], 'spec': [[p[1], p[2], sorted(p[3]), p[4]] for p in raw]}
 
 
 def run_impl(case):
@@ -687,7 +703,29 @@ def spec_holds(case, obs, spec):
 
 
 def classify(case, obs, spec):
-    return None
+    """C14-permissive-skips-predicates: every request on which the judge fails (a) is accepted by the tolerant judge
+    (= everything except the direct invoke_exception_view(secure=False) call is as the property says), (b) made
+    that call with secure=False, and (c) the exception-view body that ran inside the call belongs to a declaration
+    with a permission (the only views that carry __call_permissive__) which has predicates."""
+    if spec is None or not isinstance(obs, list) or len(obs) != len(spec):
+        return None
+    bad = [(r, tr, p) for r, tr, p in zip(case['requests'], obs, spec) if p[1] != 1]
+    if not bad:
+        return None
+    decl = {v['tag']: v for v in case['views']}
+    for r, tr, p in bad:
+        u = r['under']
+        if p[3] != 1 or u[0] != 'catch' or u[2]:
+            return None
+        pre = []
+        for e in tr:
+            if e[0] == 2:
+                break
+            pre.append(e)
+        ran = [e[1] for e in pre if e[0] == 0 and e[2] != A.CTX_RESOURCE]
+        if len(ran) != 1 or ran[0] not in decl or not decl[ran[0]]['perm'] or not decl[ran[0]]['preds']:
+            return None
+    return 'C14-permissive-skips-predicates'
 
 
 def _final(tr):
@@ -711,6 +749,7 @@ def kinds(case, obs):
     k = []
     if not isinstance(obs, list) or (obs and obs[0] == 'HARNESS-EXC'):
         return ['harness-exc']
+    act_of = {v['tag']: v['body']['act'][0] for v in case['views']}
     for r, tr in zip(case['requests'], obs):
         f = _final(tr)
         if f is None:
@@ -742,7 +781,11 @@ def kinds(case, obs):
         if r['route']:
             k.append('req:routed')
         if any(e[0] == 1 for e in tr):
-            k.append('req:iev-in-tween')
+            k.append('req:iev-in-tween' + ('' if r['under'][2] else '-secure-false'))
+        if o[0] == 2 and o[1] in (1013, 1023):
+            k.append('final:secured-excview-refused')
+        if any(e[0] == 0 and e[2] == A.CTX_RESOURCE and act_of.get(e[1]) == 'ctx' for e in tr):
+            k.append('ordinary-view-returns-context')
     dirs = set()
     for v in case['views']:
         dirs.add('decl:' + v['dir'] + ('-xonly' if v['xonly'] else ''))
@@ -781,7 +824,7 @@ def targeted(broken, disagreements, rng):
             for r in c['requests']:
                 r['preset'] = rng.randrange(nexc)
                 if rng.random() < 0.5:
-                    r['under'] = ['catch', rng.random() < 0.5, rng.randrange(nexc)]
+                    r['under'] = ['catch', rng.random() < 0.5, rng.random() < 0.7, rng.randrange(nexc)]
             c['views'] = [v for v in c['views'] if not _exc_decl(v) or rng.random() < 0.4]
         elif k == 1:
             xs = [v for v in c['views'] if _exc_decl(v) and v['phase'] == 0]
@@ -826,4 +869,5 @@ def explain(item):
             'snapshot=[response,exc_info,exception] of request.__dict__ ([]=absent); outcome [0,tag]=response of view tag, '
             '[1,e,status]=the exception object e as response, [2,e]=e propagates; ids <1000 index case.excs, 1000+ are '
             'framework-made (1000 router HTTPNotFound, 1001 PredicateMismatch, 1002 HTTPForbidden, 101x/102x made inside '
-            'invoke_exception_view in the tween / in the excview tween); spec=[judge(model), judge(observed), winners]')
+            'invoke_exception_view in the tween / in the excview tween); spec=[judge(model), judge(observed), winners, '
+            'tolerant judge(observed)]')
